@@ -1,11 +1,19 @@
 #!/bin/sh
-# run every registered check (quick by default) one after the other; one summary line per property on stdout
+# run every registered check (quick by default); one summary line per property on stdout
+#   ./run_all.sh [quick|thorough] [jobs]     (jobs: checks run side by side, default 1)
 cd "$(dirname "$0")"
 TIER=${1:-quick}
+JOBS=${2:-1}
 mkdir -p build
-for p in $(python3 -c "import json;print(' '.join(c['property_id'] for c in json.load(open('MANIFEST.json'))['checks']))"); do
-  s=$(date +%s)
+one() {
+  p=$1; s=$(date +%s)
   ./check $p --tier $TIER > build/run_all.$p.out 2>&1
   rc=$?
   echo "$p rc=$rc $(( $(date +%s) - s ))s :: $(tail -1 build/run_all.$p.out | cut -c1-200)"
-done
+}
+IDS=$(python3 -c "import json;print(' '.join(c['property_id'] for c in json.load(open('MANIFEST.json'))['checks']))")
+if [ "$JOBS" -le 1 ]; then
+  for p in $IDS; do one $p; done
+else
+  for p in $IDS; do echo $p; done | TIER=$TIER xargs -P "$JOBS" -I{} sh -c 's=$(date +%s); ./check {} --tier $TIER > build/run_all.{}.out 2>&1; rc=$?; echo "{} rc=$rc $(( $(date +%s) - s ))s :: $(tail -1 build/run_all.{}.out | cut -c1-200)"'
+fi
